@@ -1,9 +1,21 @@
-"""engines.py -- non-CBMC deciders: closed obligations over the word lists (native, exhaustive) and
-static facts from the goto symbol table.  Each engine returns a list of dicts
-{name, status: pass|fail|undecided, evaluated, detail, witness?, sample?, native_replay?}."""
-import os, sys
+"""engines.py -- non-CBMC-proof deciders: closed obligations over the word lists (native, exhaustive) and
+static facts from the goto symbol table / goto program of the linked library.
+Each engine returns a list of dicts {name, status: pass|fail|undecided, evaluated, detail, witness?, sample?}."""
+import glob
+import hashlib
+import json
+import os
+import re
+import shutil
+import subprocess
+import sys
+
+VERIF = os.path.dirname(os.path.abspath(__file__))
+sys.path.insert(0, os.path.join(VERIF, "tools"))
+import vlib  # noqa: E402
 
 REGISTRY = {}
+
 
 def engine(name):
     def deco(f):
@@ -11,10 +23,266 @@ def engine(name):
         return f
     return deco
 
+
 def run(name, prop, tier, work):
-    if name not in REGISTRY:
+    base = name.split(":")[0]
+    if base not in REGISTRY:
         return [{"name": name, "status": "undecided", "evaluated": 0, "detail": "engine not implemented"}]
     try:
-        return REGISTRY[name](prop, tier, work)
+        return REGISTRY[base](prop, tier, work, name)
     except Exception as e:  # an engine crash is never a violation
-        return [{"name": name, "status": "undecided", "evaluated": 0, "detail": "engine error: %r" % e}]
+        import traceback
+        return [{"name": name, "status": "undecided", "evaluated": 0,
+                 "detail": "engine error: %r %s" % (e, traceback.format_exc()[-400:])}]
+
+
+def _copy_repo(work, tag):
+    d = os.path.join(work, tag)
+    if not os.path.exists(d):
+        os.makedirs(d)
+        for sub in ("src", "include"):
+            shutil.copytree(os.path.join(vlib.REPO, sub), os.path.join(d, sub))
+    return d
+
+
+# ------------------------------------------------------------------------------------------ tables
+_tables_cache = {}
+
+# which table facts serve which property
+TABLE_FACTS = {
+    "C01": ["distinct", "token_safe", "unicode", "zh_overlap", "registry"],
+    "C02": ["distinct"],
+    "C03": ["registry", "golden"],
+    "C05": ["distinct"],
+    "C07": ["registry", "sorted", "distinct", "first4_unique", "short_prefix", "token_safe", "unicode", "golden"],
+    "C08": ["accept_rule", "registry", "first4_unique"],
+    "C09": ["token_safe", "zh_overlap"],
+    "C17": ["fits"],
+    "C19": ["sorted", "distinct", "accept_rule", "chars_agree"],
+}
+
+
+def _run_tables(work, tier):
+    key = (work, tier)
+    if key in _tables_cache:
+        return _tables_cache[key]
+    d = _copy_repo(work, "tables_src")
+    out = {}
+    errs = []
+    for ch in ("signed", "unsigned"):
+        exe = os.path.join(d, "tb_" + ch)
+        cmd = ["gcc", "-O1", "-w", "-f%s-char" % ch, "-DPOLYSEED_STATIC", "-I" + os.path.join(d, "include"), "-I" + d,
+               os.path.join(VERIF, "tables", "tables.c")] + sorted(glob.glob(os.path.join(d, "src", "lang_*.c"))) + \
+              ["-lutf8proc", "-o", exe]
+        p = subprocess.run(cmd, capture_output=True, text=True, timeout=300)
+        if p.returncode != 0:
+            errs.append("tables build failed (%s): %s" % (ch, p.stderr[-600:]))
+            continue
+        dump = os.path.join(d, "dump_" + ch)
+        os.makedirs(dump, exist_ok=True)
+        p = subprocess.run([exe, dump, tier], capture_output=True, text=True, timeout=1200)
+        if p.returncode != 0:
+            errs.append("tables run failed (%s): rc=%d %s" % (ch, p.returncode, p.stderr[-300:]))
+            continue
+        rows = []
+        for line in p.stdout.splitlines():
+            line = line.strip()
+            if line.startswith("{"):
+                try:
+                    rows.append(json.loads(line))
+                except Exception:
+                    errs.append("unparsable table output: " + line[:100])
+        # T5 golden digests from the dump
+        gpath = os.path.join(VERIF, "golden", "wordlists.sha256")
+        golden = {}
+        if os.path.exists(gpath):
+            for l in open(gpath):
+                if l.strip() and not l.startswith("#"):
+                    h, n = l.split()
+                    golden[n] = h
+        for f in sorted(os.listdir(dump)):
+            n = f[:-4]
+            h = hashlib.sha256(open(os.path.join(dump, f), "rb").read()).hexdigest()
+            ok = golden.get(n) == h
+            rows.append({"name": "T.golden[%s]" % n, "status": "pass" if ok else "fail", "evaluated": 2048,
+                         "detail": "SHA-256 of (index, word) lines %s the digest recorded at the pinned release (%s)"
+                                   % ("equals" if ok else "DIFFERS from", golden.get(n, "no record")[:16])})
+        missing = set(golden) - set(f[:-4] for f in os.listdir(dump))
+        for n in sorted(missing):
+            rows.append({"name": "T.golden[%s]" % n, "status": "fail", "evaluated": 1, "detail": "language %s is no longer present" % n})
+        out[ch] = rows
+    _tables_cache[key] = (out, errs)
+    return out, errs
+
+
+@engine("tables")
+def tables_engine(prop, tier, work, name):
+    out, errs = _run_tables(work, tier)
+    res = []
+    if errs:
+        return [{"name": "tables", "status": "undecided", "evaluated": 0, "detail": "; ".join(errs)}]
+    want = TABLE_FACTS.get(prop, [])
+    chars = ("signed", "unsigned") if (prop == "C19" or tier == "thorough") else ("signed",)
+    for ch in chars:
+        for r in out.get(ch, []):
+            fact = r["name"][2:].split("[")[0]
+            if fact not in want:
+                continue
+            r2 = dict(r)
+            if ch == "unsigned":
+                r2["name"] = r["name"] + "@unsigned-char"
+            r2["sample"] = r.get("detail", "")[:160]
+            res.append(r2)
+    if prop == "C19":
+        # both char settings must give the same verdicts and details (deterministic specification)
+        a = {r["name"]: (r["status"], r.get("detail")) for r in out.get("signed", [])}
+        b = {r["name"]: (r["status"], r.get("detail")) for r in out.get("unsigned", [])}
+        diff = [k for k in a if a.get(k) != b.get(k)]
+        res.append({"name": "T.chars_agree[all]", "status": "fail" if diff else "pass", "evaluated": len(a),
+                    "detail": ("table facts differ between signed and unsigned char: " + ", ".join(diff[:5])) if diff
+                    else "every closed word-list fact evaluates identically with signed and unsigned plain char"})
+    return res
+
+
+# ------------------------------------------------------------------------------------------ static facts
+_static_cache = {}
+EXPECTED_MUTABLE = {"polyseed_deps": "src/dependency.c", "reserved_features": "src/features.c",
+                    "polyseed_mul2_table": "src/gf.c", "languages": "src/lang.c"}
+ALLOWED_WRITERS = {"polyseed_deps": {"polyseed_inject"}, "reserved_features": {"polyseed_enable_features"},
+                   "polyseed_mul2_table": set(), "languages": set()}
+ALLOWED_LIBC = {"memcpy", "memset", "memcmp", "bsearch", "strcmp", "__assert_fail"}
+
+
+def _static_facts(work):
+    if work in _static_cache:
+        return _static_cache[work]
+    d = _copy_repo(work, "static_src")
+    srcs = sorted(glob.glob(os.path.join(d, "src", "*.c")))
+    gb = os.path.join(d, "lib.gb")
+    p = subprocess.run(["goto-cc", "-std=c11", "-I" + os.path.join(d, "include"), "-DPOLYSEED_STATIC"] +
+                       [os.path.relpath(s, d) for s in srcs] + ["-o", "lib.gb"], cwd=d, capture_output=True, text=True, timeout=600)
+    if p.returncode != 0 or not os.path.exists(gb):
+        raise RuntimeError("goto-cc of the library failed: " + p.stderr[-500:])
+    st = subprocess.run(["goto-instrument", "--show-symbol-table", "--json-ui", "lib.gb"], cwd=d, capture_output=True, text=True, timeout=600)
+    table = None
+    for it in json.loads(st.stdout):
+        if isinstance(it, dict) and "symbolTable" in it:
+            table = it["symbolTable"]
+    mutable = {}
+    nfuncs = 0
+    for k, v in table.items():
+        loc = v.get("location", {})
+        f = loc.get("file", "") if isinstance(loc, dict) else ""
+        if not (f.startswith("src/") or f.startswith("include/")):
+            continue
+        if v.get("isType") or v.get("isMacro"):
+            continue
+        if v.get("type", {}).get("id") == "code":
+            nfuncs += 1
+            continue
+        if v.get("isStaticLifetime") and v.get("isLvalue") and not v.get("isExtern"):
+            const = "#constant" in v.get("type", {}).get("namedSub", {})
+            if not const:
+                mutable[k] = f
+    gf = subprocess.run(["goto-instrument", "--show-goto-functions", "lib.gb"], cwd=d, capture_output=True, text=True, timeout=600).stdout
+    cur = None
+    libfuncs = set()
+    writes = []      # (function, lhs)
+    addr = []        # (function, symbol)
+    calls = []       # (function, kind, target)
+    for line in gf.splitlines():
+        mo = re.match(r"^([A-Za-z_][A-Za-z_0-9$:]*) /\* .* \*/\s*$", line)
+        if mo:
+            cur = re.sub(r"\$link\d+$", "", mo.group(1))
+            libfuncs.add(cur)
+            continue
+        s = line.strip()
+        if cur is None:
+            continue
+        if s.startswith("ASSIGN "):
+            lhs = s[7:].split(" := ")[0]
+            writes.append((cur, lhs))
+        if s.startswith("CALL "):
+            body = s[5:]
+            if " := " in body.split("(")[0] or re.match(r"^[^()]* := ", body):
+                lhs, body = body.split(" := ", 1)
+                writes.append((cur, lhs))
+            if body.startswith("*"):
+                tgt = body[1:].split("(")[0] if not body.startswith("*(") else body[2:].split(")")[0]
+                calls.append((cur, "pointer", tgt))
+            else:
+                calls.append((cur, "direct", re.sub(r"\$link\d+$", "", body.split("(")[0])))
+        for sym in list(mutable) + list(EXPECTED_MUTABLE):
+            if "address_of(%s" % sym in s:
+                addr.append((cur, sym, s[:160]))
+    res = dict(mutable=mutable, writes=writes, addr=addr, calls=calls, libfuncs=libfuncs, nfuncs=nfuncs)
+    _static_cache[work] = res
+    return res
+
+
+def _base_sym(lhs):
+    return re.split(r"[.\[]", lhs.lstrip("*("))[0]
+
+
+@engine("statics")
+def statics_engine(prop, tier, work, name):
+    sf = _static_facts(work)
+    res = []
+    mutable = sf["mutable"]
+    extra = {k: v for k, v in mutable.items() if k not in EXPECTED_MUTABLE}
+    written_extra = []
+    for fn, lhs in sf["writes"]:
+        b = _base_sym(lhs)
+        if b in extra:
+            written_extra.append((fn, b))
+    ok = not written_extra
+    detail = "mutable static-lifetime objects defined in the library: %s" % ", ".join(sorted(mutable))
+    if extra and not written_extra:
+        detail += " (note: %s is new but never written)" % ", ".join(sorted(extra))
+    if written_extra:
+        detail = "new mutable static written by library code: " + ", ".join("%s in %s" % (b, f) for f, b in sorted(set(written_extra))[:6])
+    res.append({"name": "S.statics.set", "status": "pass" if ok else "fail", "evaluated": len(mutable) + sf["nfuncs"],
+                "detail": detail, "sample": detail[:160], "witness": {"new_static_writers": sorted(set(written_extra))[:10]}})
+    bad = []
+    for fn, lhs in sf["writes"]:
+        b = _base_sym(lhs)
+        if b in ALLOWED_WRITERS and fn not in ALLOWED_WRITERS[b]:
+            bad.append("%s writes %s" % (fn, lhs))
+    for fn, sym, s in sf["addr"]:
+        if sym in ALLOWED_WRITERS and fn not in ALLOWED_WRITERS[sym]:
+            bad.append("%s takes the address of %s" % (fn, sym))
+    res.append({"name": "S.statics.writers", "status": "fail" if bad else "pass", "evaluated": len(sf["writes"]),
+                "detail": "; ".join(sorted(set(bad))[:6]) if bad else
+                "polyseed_deps is written only by polyseed_inject, reserved_features only by polyseed_enable_features; "
+                "polyseed_mul2_table and languages[] are never written and never have their address taken (%d assignments scanned)" % len(sf["writes"]),
+                "sample": "assignments scanned: %d" % len(sf["writes"])})
+    return res
+
+
+@engine("calls")
+def calls_engine(prop, tier, work, name):
+    sf = _static_facts(work)
+    bad = []
+    n = 0
+    for fn, kind, tgt in sf["calls"]:
+        n += 1
+        if kind == "direct":
+            if tgt in sf["libfuncs"] or tgt in ALLOWED_LIBC:
+                continue
+            if tgt == "time" and fn == "stdlib_time":
+                continue
+            bad.append("%s calls %s directly" % (fn, tgt))
+        else:
+            if tgt.startswith("polyseed_deps."):
+                continue
+            if fn in ("lang_search", "polyseed_lang_check") and tgt.endswith("cmp"):
+                continue
+            bad.append("%s calls through pointer %s" % (fn, tgt))
+    # malloc / free / stdlib_time only as fall-backs installed by polyseed_inject
+    for fn, sym, s in []:
+        pass
+    return [{"name": "S.calls", "status": "fail" if bad else "pass", "evaluated": n,
+             "detail": "; ".join(sorted(set(bad))[:6]) if bad else
+             "every direct call in library code targets a library function or one of memcpy/memset/memcmp/bsearch/strcmp/assert; "
+             "libc time() only inside stdlib_time; every other external effect goes through a polyseed_deps member (%d call sites)" % n,
+             "sample": "call sites scanned: %d" % n}]
